@@ -47,9 +47,8 @@ MUTANTS = [
   "\t\tcase isExecNode(m.tnext, exec):\n\t\t\tm = m.tnext\n\t\tcase isExecNode(m.fnext, exec):\n\t\t\tm = m.fnext",
   "\t\tcase m.fnext != nil:\n\t\t\tm = m.fnext\n\t\tcase isExecNode(m.tnext, exec):\n\t\t\tm = m.tnext",
   "the debugger loop takes the false branch as current node whenever there is one"),
- ("M11-root-id-not-refreshed", "C10", "program.go",
-  "\tinterp.frame.setrunid(id)\n", "\t_ = id\n",
-  "Execute no longer refreshes the root frame's run id"),
+ ("M11-root-id-not-refreshed", "C10", [("program.go", "\tinterp.frame.setrunid(id)\n", "\t_ = id\n"), ("interp.go", "\t\tinterp.frame.setrunid(id)\n", "\t\t_ = id\n")], None, None,
+  "neither the start of an evaluation nor Execute refreshes the root frame's run id any more"),
  ("M12-rangechan-without-done", "C09", "run.go",
   "\t\tchosen, v, ok := reflect.Select([]reflect.SelectCase{done, {Dir: reflect.SelectRecv, Chan: value(f)}})\n\t\tif chosen == 0 {\n\t\t\treturn nil\n\t\t}",
   "\t\tv, ok := value(f).Recv()\n\t\t_ = done",
@@ -93,7 +92,7 @@ def main():
     env = dict(os.environ, GOFLAGS="-mod=mod", GOPROXY="off", GOSUMDB="off", GOTOOLCHAIN="local")
     results = []
     for name, prop, fname, old, new, desc in MUTANTS:
-        if "PLACEHOLDER" in old:
+        if isinstance(old, str) and "PLACEHOLDER" in old:
             continue
         if only and not any(o in name for o in only):
             continue
@@ -102,12 +101,18 @@ def main():
             shutil.copytree("/repo/interp", os.path.join(tmp, "interp"))
             for d in ("_test", "stdlib"):
                 os.symlink(os.path.join("/repo", d), os.path.join(tmp, d))
-            p = os.path.join(tmp, "interp", fname)
-            s = open(p).read()
-            if s.count(old) != 1:
-                results.append((name, prop, "PATTERN-NOT-FOUND(%d)" % s.count(old), 0))
+            edits = fname if isinstance(fname, list) else [(fname, old, new)]
+            bad = False
+            for fn_, old_, new_ in edits:
+                p = os.path.join(tmp, "interp", fn_)
+                s = open(p).read()
+                if s.count(old_) != 1:
+                    results.append((name, prop, "PATTERN-NOT-FOUND(%d)" % s.count(old_), 0))
+                    bad = True
+                    break
+                open(p, "w").write(s.replace(old_, new_))
+            if bad:
                 continue
-            open(p, "w").write(s.replace(old, new))
             out = os.path.join(tmp, "out")
             os.makedirs(out)
             t0 = time.time()
